@@ -254,3 +254,55 @@ Definition merge_copies_ok : bool :=
                                 match returned with [] => false | _ => true end
   | None => false
   end.
+
+(* ------------------------------------------------------------------ Sphinx environment uses in read-phase code (round 5)
+   function ("*" = any), attribute, class, justification.  With parallel reading each worker has its own copy of the
+   environment, in which the incrementally filled tables only know the documents read by that worker so far. *)
+Definition env_class : list (string * string * eclass * string) := [
+  ("*", "config", EComplete, "the Sphinx configuration: fixed before reading starts");
+  ("*", "srcdir", EComplete, "source directory: fixed");
+  ("*", "app", EComplete, "the application object (events.emit of include-read)");
+  ("*", "myst_config", EComplete, "created by the builder-inited handler, before any document is read");
+  ("*", "found_docs", EComplete, "all source documents, discovered by env.find_files before reading starts (identical in every worker)");
+  ("*", "relfn2path", EComplete, "pure function of srcdir and the current docname");
+  ("*", "path2doc", EComplete, "pure function of the project's source suffixes and srcdir");
+  ("*", "docname", ECurrentDoc, "the document being read");
+  ("*", "temp_data", ECurrentDoc, "per-document scratch data (highlight_language set by a directive of the same document)");
+  ("*", "metadata", EWriteOwnSlot, "written under the current docname only (myst_slugs, wordcount); merged from the workers by docname (C15_merge_commutes)");
+  ("*", "note_included", EWriteOwnSlot, "records a dependency of the current document; env.included is merged from the workers");
+  ("*", "get_domain", EWriteOwnSlot, "math domain: note_equation / get_equation_number_for exactly as sphinx.directives.patches.MathDirective; merged by MathDomain.merge_domaindata and renumbered at resolve time");
+  ("DocutilsRenderer._render_finalise", "<object>", EIdentity, "truthiness test");
+  ("DocutilsRenderer.create_highlighted_code_block", "<object>", EIdentity, "is not None");
+  ("DocutilsRenderer.render_fence", "<object>", EIdentity, "is not None");
+  ("DocutilsRenderer.blocks_mathjax_processing", "<object>", EIdentity, "is not None");
+  ("DocutilsRenderer.render_dl", "<object>", EWriteOwnSlot, "handed to sphinx.domains.std.make_glossary_term, which registers the term for the current document (std domain data are merged from the workers)");
+  ("DocutilsRenderer.render_substitution", "<object>", EUserDriven, "put into the Jinja context as 'env': what the document's own expression reads from it is the document's choice");
+  ("SphinxRenderer.get_inventory_matches", "<object>", EComplete, "InventoryAdapter(env).named_inventory: intersphinx inventories are loaded by its builder-inited handler");
+  ("MockIncludeDirective.run", "<object>", EIdentity, "is not None / local alias for the calls listed separately");
+  (* the incrementally filled tables, listed so that a use of them is rejected by name *)
+  ("*", "all_docs", EFilledWhileReading, "docname -> mtime of the documents read so far by this process");
+  ("*", "titles", EFilledWhileReading, "filled by the TitleCollector after each document");
+  ("*", "longtitles", EFilledWhileReading, "see titles");
+  ("*", "tocs", EFilledWhileReading, "filled by the TocTreeCollector after each document");
+  ("*", "toc_num_entries", EFilledWhileReading, "see tocs");
+  ("*", "domaindata", EFilledWhileReading, "objects / labels of the documents read so far");
+  ("*", "domains", EFilledWhileReading, "see domaindata");
+  ("*", "dependencies", EFilledWhileReading, "filled per document");
+  ("*", "included", EFilledWhileReading, "filled per document");
+  ("*", "images", EFilledWhileReading, "filled by the ImageCollector");
+  ("*", "dlfiles", EFilledWhileReading, "filled by the DownloadFileCollector")
+].
+
+Definition env_class_of (func attr : string) : option eclass :=
+  match find (fun e => match e with (f, a, _, _) => (String.eqb f "*" || String.eqb f func) && String.eqb a attr end) env_class with
+  | Some (_, _, k, _) => Some k
+  | None => None
+  end.
+
+(* every use is classified and none is of an incrementally filled table *)
+Definition env_reads_ok : bool :=
+  forallb (fun r => match r with (_, func, attr) =>
+     match env_class_of func attr with
+     | Some k => negb (eclass_eqb k EFilledWhileReading)
+     | None => false
+     end end) env_reads.
